@@ -15,6 +15,7 @@ from sa import normal as N
 from sa.dcmodel import DataclassModel
 from sa.fold import Evaluator, Obj, Unknown
 from sa.index import AnalysisError, ClassInfo, FuncInfo, dotted_of
+from sa import astx as X
 from sa.report import Ctx, Rule
 
 LM = "maze_dataset.maze.lattice_maze"
@@ -334,6 +335,22 @@ def rule_R4(ctx: Ctx) -> None:
     init = model.effective(c, "__init__")
     ctx.judge(c, init.kind == "generated", {"effective___init__": init.to_json()},
               "TargetedLatticeMaze.__init__ is dataclass-generated (it calls __post_init__)")
+    # the value that is checked must be the value that was given: a narrowing conversion (int8 / int16 / unsigned) before the checks wraps
+    # out-of-range coordinates back into range (256 -> 0) and voids them
+    NARROW = ("int8", "int16", "uint8", "uint16", "uint32", "uint64", "byte", "short", "ubyte")
+    for n in ast.walk(pi.node):
+        if isinstance(n, ast.Assign) and any(p_ in X.U(n.targets[0]) for p_ in ("start_pos", "end_pos")):
+            narrow = None
+            for c_ in ast.walk(n.value):
+                if isinstance(c_, ast.Call):
+                    dt = N.kwarg(c_, "dtype") or (c_.args[0] if dotted_of(c_.func) is None and isinstance(c_.func, ast.Attribute) and c_.func.attr == "astype" and c_.args else None)
+                    if isinstance(c_.func, ast.Attribute) and c_.func.attr == "astype" and c_.args:
+                        dt = c_.args[0]
+                    if dt is not None and X.U(dt).rsplit(".", 1)[-1].strip("'\"") in NARROW:
+                        narrow = X.U(dt)
+            ctx.judge(pi, narrow is None, {"store": X.U(n)[:100], "narrowing_dtype": narrow},
+                      "endpoints are converted to an array without narrowing before they are range-checked",
+                      "a coordinate such as 256 (or -256) wraps to 0 before the bounds check and is accepted", node=n)
     guards = _raise_guards(pi)
     raised: set[tuple] = set()
     vector: dict[tuple[str, str], bool] = {}
